@@ -125,6 +125,9 @@ def nm(*codes):
     return tuple(chr(97 + c) for c in codes)
 
 
+SPECIAL = ("return_type", "self", "argument_parser", "cls")  # names that are special inside doctrans
+
+
 def body_template(N):
     """statements with symbolic identifiers N[0..5]: names, a keyword-argument name, an attribute name, a nested def's parameter"""
     n0, n1, n2, n3, n4, n5 = N
@@ -176,11 +179,14 @@ def _strip_ctx(x):
     return x
 
 
-def rename(c0, c1, c2, c3, c4, c5, active):
+def rename(c0, c1, c2, c3, c4, c5, active, with_ret=False, first=None):
     N = nm(c0, c1, c2, c3, c4, c5)
+    if first is not None:
+        N = (first,) + N[1:]  # the assigned local is literally named like something doctrans treats specially
     ir = {"name": "f", "type": "static", "doc": "Summary line",
           "params": OrderedDict([("a", {"typ": "int", "doc": "the a"}), ("b", {"typ": "int", "doc": "the b", "default": 5})]),
-          "returns": None, "_internal": {"body": body_template(N), "from_name": "f", "from_type": "static"}}
+          "returns": OrderedDict([("return_type", {"typ": "int", "doc": "the result", "default": "```c```"})]) if with_ret else None,
+          "_internal": {"body": body_template(N), "from_name": "f", "from_type": "static"}}
     cd = emit.class_(ir, emit_call=True, class_name="K", word_wrap=False)
     call = [n for n in cd.body if isinstance(n, ast.FunctionDef) and n.name == "__call__"]
     if len(call) != 1:
@@ -214,7 +220,7 @@ def obligations(tier, seed):
     obs = []
     obs.append(Ob(name="rename_call_noparams", params=[("c%d" % i, "int") for i in range(6)],
                   pre=["all(0 <= x < 8 for x in (c0, c1, c2, c3, c4, c5))"], body="H.rename_noparams(c0, c1, c2, c3, c4, c5)",
-                  witness=(2, 0, 1, 3, 4, 5), bounds="the same body template on an interface with zero parameters: __call__ body identical",
+                  witness=(2, 0, 1, 3, 4, 4), bounds="the same body template on an interface with zero parameters: __call__ body identical",
                   timeout=150, path_timeout=100, funcs=FUNCS))
     N = len(TABLE)
     Nq = len([t for t in TABLE if len(t[0]) <= 2])
@@ -229,9 +235,19 @@ def obligations(tier, seed):
                   body="H.carried_argparse(c, {ACTIVE})", witness=(TABLE.index(((0, 1), 0)),), kind="F",
                   bounds="argparse function with the same statement kinds interleaved with its add_argument calls; final `return argument_parser` or "
                   "`return argument_parser, c`", timeout=280 if tier == "quick" else 1800, path_timeout=120, funcs=FUNCS))
+    for sp in SPECIAL:
+        for wr in (True, False):
+            if tier == "quick" and not wr and sp != "self":
+                continue
+            obs.append(Ob(name="rename_call_%s_%s" % (sp, "ret" if wr else "noret"), params=[("c%d" % i, "int") for i in range(6)],
+                          pre=["all(0 <= x < 8 for x in (c0, c1, c2, c3, c4, c5))"],
+                          body="H.rename(c0, c1, c2, c3, c4, c5, {ACTIVE}, with_ret=%r, first=%r)" % (wr, sp), witness=(2, 0, 1, 3, 4, 4),
+                          bounds="as rename_call with the assigned local literally named %r, on an interface %s a return entry (which emit.class_ "
+                          "folds into the attributes)" % (sp, "with" if wr else "without"),
+                          timeout=240 if tier == "quick" else 900, path_timeout=100, funcs=FUNCS))
     obs.append(Ob(name="rename_call", params=[("c%d" % i, "int") for i in range(6)], pre=["all(0 <= x < 8 for x in (c0, c1, c2, c3, c4, c5))"],
-                  body="H.rename(c0, c1, c2, c3, c4, c5, {ACTIVE})", witness=(2, 0, 1, 3, 4, 5),
+                  body="H.rename(c0, c1, c2, c3, c4, c5, {ACTIVE})", witness=(2, 0, 1, 3, 4, 4),
                   bounds="body template of 5 statements (assignment, call with a keyword argument, attribute access, nested def, return) whose 6 "
                   "identifiers are symbolic 1-char names a..h; parameter set {a, b}; emit.class_(emit_call=True)",
-                  timeout=200 if tier == "quick" else 900, path_timeout=100, funcs=FUNCS))
+                  timeout=240 if tier == "quick" else 900, path_timeout=100, funcs=FUNCS))
     return obs
